@@ -5,6 +5,10 @@ ROOT = os.path.dirname(os.path.dirname(os.path.abspath(__file__)))
 
 # id -> (level, technique, level text, level note, design ref)
 CLAIMED = {
+ "C05": ("exploration", "runtime monitoring: independent recomputation (specreader) of per-page/chunk min/max in the spec's sort orders, null counts and level histograms from the decoded bytes, compared with page-header, chunk and column-index statistics; three build/CPU variants",
+         "Held on every explored file (except the recorded known finding F29): recorded min/max are true bounds of the non-null non-NaN values after truncation, null counts / null_pages / level histograms are exact, ASCENDING/DESCENDING claims hold over the recorded bounds, sorting metadata is only what was declared; statistics copied by the verbatim-copy path included; run on assembly, purego and AVX-disabled variants because min/max/order kernels differ. True bounds imply a pruning reader never skips a matching page. Sampling: exploration.",
+         "NaN bounds count as absent; INT96 order undefined (ignored). Trusted: specreader decode and Leaf.Compare (spec sort orders).",
+         "DESIGN.md §4 C05"),
  "C02": ("exploration", "runtime monitoring: independent format decoder (specreader, written from the Parquet specification) validating every structural invariant of the produced bytes and comparing decoded (value,r,d) streams with a Dremel reference model",
          "Held on every explored file: 8 production modes (typed/reflect writers, WriteRowGroup from buffers and files incl. copy and re-encode paths, SortingWriter, ColumnWriters, Reset reuse, concurrent row groups) x catalogue types x option matrix; ~50 invariants (offsets, sizes, counts, CRC, page/row boundaries, offset index, column index lengths, encoding stats, size statistics, bloom filter header) evaluated and counted per run; decoded streams equal the model of the input. Sampling: exploration.",
          "Trusted: specreader (validated on the third-party parquet-testing files in /repo/testdata: identical streams to the library on all of them), klauspost/andybalholm decompressors called directly. Maps hold <=1 entry.",
